@@ -3,9 +3,10 @@ package main
 // C02 — served file content stays inside the root and never includes hidden files.
 //
 // Real in-process casket sites (casket.Start on loopback) rooted in a fixture under
-// /var/tmp/verif-C02-<pid>/root whose origin Casketfile lies INSIDE the root (so hideCasketfile
+// /var/tmp/verif-C02-fix-<pid>/root whose origin Casketfile lies INSIDE the root (so hideCasketfile
 // applies) and which also hides files through `internal` (the only directive that appends to
-// SiteConfig.HiddenFiles). Every regular file of the fixture carries a unique token, so the
+// SiteConfig.HiddenFiles). Multi-site Casketfiles (c02MTable, c02MStart) are written to disk and
+// loaded from there; a third tree (c02STable) holds symbolic links. Every regular file of the fixture carries a unique token, so the
 // provenance of every returned byte run is decidable; token files also exist OUTSIDE the root.
 // Requests are raw request lines (no client-side cleaning) over an adversarial segment alphabet.
 // The fixture tree is a Go table: it is written to disk, re-read from disk (stat + lstat
@@ -1173,6 +1174,9 @@ func c02Split(target string) (p, query string, ok bool) {
 	if i := strings.Index(raw, "?"); i >= 0 {
 		raw, query = raw[:i], raw[i+1:]
 	}
+	if !strings.HasPrefix(raw, "/") { // not origin-form ("%2f…" is no leading slash): net/http answers 400
+		return "", "", false
+	}
 	var sb strings.Builder
 	hv := func(c byte) int {
 		switch {
@@ -1353,7 +1357,7 @@ func c02Run(in0 interface{}) Result {
 	site := cApp("mksite", cStr(fx.root), cStr(filepath.Join(fx.base, c02Origin(in.Site))), cStr(sitePrefix), cStr(scope), cStrList(types))
 	if prefixSite {
 		sig := c02Sig(in, p, query)
-		if strings.HasPrefix(p, "//") || strings.HasPrefix(strings.TrimPrefix(c02EscapedPath(in.Target), "/pre"), "//") {
+		if (strings.HasPrefix(p, "//") || strings.HasPrefix(strings.TrimPrefix(c02EscapedPath(in.Target), "/pre"), "//")) && !strings.HasPrefix(sig, "browse:listing:") {
 			sig = "prefix-site:rest-after-prefix-starts-with-two-slashes"
 		}
 		term := cApp("CReq", site, req, ob)
@@ -1969,7 +1973,7 @@ func c02GenMulti(r *Rand, thorough bool) []interface{} {
 func init() {
 	register(&Property{
 		ID: "C02", Imports: "V.Lib V.GoPath V.Gen_C02 V.Gen_C02b V.C02_Model", Judge: "judge", Shard: 150,
-		Rule:   "real in-process sites (static; browse / with every archive type; browse /dir with zip, tar.gz; the same root under a site path prefix /pre; the origin Casketfile in a sub-directory of the root / outside it / in a sibling directory named root+x) rooted in a fixture with files, nested directories, index pages (incl. a directory named index.html and a hidden index page), .gz/.br/.zst siblings (incl. a hidden one and a directory named like one), hard links, odd names, the origin Casketfile inside the root, `internal`-hidden files and an `internal`-hidden directory, plus token files outside the root; raw request lines: exhaustive targets of depth <= 2 (3 sampled / full) over the segment alphabet {a.txt, dir, ., .., empty, %2e, %2E%2e, %2f, backslash, %5c, A.TXT, Casketfile, x} x trailing slash (static; sampled on browse with ?archive=); every directory x archive types / sort orders / JSON; open-redirect shapes (1..5 leading slashes x foreign first segment x dot-dot x directory or file-with-slash); every file x Accept-Encoding subsets and decoys; random respellings (dot segments, doubled / encoded slashes and dots, case flips, backslashes, climbing above the root, NUL) x methods x queries. Prefix-site cases are modelled like the others (the path the handlers see is computed as trimPathPrefix does); those whose path does not start with the prefix never reach the site and are judged against the executable property only (CContract). Non-trivial = answers 200 or 3xx",
+		Rule:   "real in-process sites (static; browse / with every archive type; browse /dir with zip, tar.gz; the same root under a site path prefix /pre; the origin Casketfile in a sub-directory of the root / outside it / in a sibling directory named root+x) rooted in a fixture with files, nested directories, index pages (incl. a directory named index.html and a hidden index page), .gz/.br/.zst siblings (incl. a hidden one and a directory named like one), hard links, odd names, the origin Casketfile inside the root, `internal`-hidden files and an `internal`-hidden directory, plus token files outside the root; raw request lines: exhaustive targets of depth <= 2 (3 sampled / full) over the segment alphabet {a.txt, dir, ., .., empty, %2e, %2E%2e, %2f, backslash, %5c, A.TXT, Casketfile, x} x trailing slash (static; sampled on browse with ?archive=); every directory x archive types / sort orders / JSON; open-redirect shapes (1..5 leading slashes x foreign first segment x dot-dot x directory or file-with-slash); every file x Accept-Encoding subsets and decoys; random respellings (dot segments, doubled / encoded slashes and dots, case flips, backslashes, climbing above the root, NUL) x methods x queries. MULTI-SITE Casketfiles written to disk and loaded from there (2-3 sites s0/s1/s2.c02.test, every ordered pair and sampled / every ordered triple over the root relations {contains the Casketfile directly, in a sub-directory, not at all (below / beside), sibling with a string-prefix name}; one port, one per site, two sharing; root spelled cleaned / trailing slash / with /./ / with x/../ / not at all (default root); blocks with two addresses), requests to EVERY site with its Host header: the Casketfile under every name it has in that root, its directory as HTML / JSON listing and as archive, random respellings; every directory x 24 spellings of ?limit= (HTML / JSON, sort, order); HEAD beside GET for every file and every hidden spelling (the file a header describes is identified by ETag, Content-Length, Last-Modified); a site with symbolic links (judged against the executable property only). Prefix-site cases are modelled like the others (the path the handlers see is computed as trimPathPrefix does); those whose path does not start with the prefix never reach the site and are judged against the executable property only (CContract). Non-trivial = answers 200 or 3xx",
 		Gen:    c02Gen,
 		Decode: func(raw json.RawMessage) (interface{}, error) { in := &c02In{}; return in, json.Unmarshal(raw, in) },
 		Run:    c02Run,
